@@ -89,9 +89,17 @@ Definition py_tensor_arg (o : option (list Q)) : res (list Q) :=
 (* ---------- encoding.n_moves_for_size / decode_move, Position.move ---------- *)
 (* len(MOVES_BY_SIZE[size]); C07 ties the table *)
 Definition n_moves_for_size (size : Z) : Z := zlen (table size).
-(* MOVES_BY_SIZE[size][mid] for 0 <= mid (the ids come from torch.nonzero) *)
+(* MOVES_BY_SIZE[size][mid] for 0 <= mid (the ids come from torch.nonzero).  As in the module, the tables of the
+   sizes 0..6 are a constant computed once (vm_compute caches a closed constant); for any other size the table is
+   computed on the spot - the value is `table size` in every case (proofs/MctsGenEq.v moves_of_size_eq) *)
+Definition MOVES_BY_SIZE : list (list mv) := map table [0; 1; 2; 3; 4; 5; 6].
+Definition moves_of_size (size : Z) : list mv :=
+  if (0 <=? size) && (size <=? 6) then nth (Z.to_nat size) MOVES_BY_SIZE [] else table size.
 Definition py_decode_move (size mid : Z) : res mv :=
-  match decode_move size mid with Some m => Ok m | None => Crash IndexError end.
+  match (if mid <? 0 then None else nth_error (moves_of_size size) (Z.to_nat mid)) with
+  | Some m => Ok m
+  | None => Crash IndexError
+  end.
 (* position.move(m): IllegalMove is the module's own refusal (T01 ties game.py to Tak.move) *)
 Definition py_move (p : position) (m : mv) : res position := embed (Tak.move p m).
 
